@@ -6,7 +6,7 @@ import ast
 from ..interp import Interp
 from ..lib import loc, unparse
 from ..repo import walk_scope
-from ..terms import App, Attr, Obj, Op, Star, Sub, Sym, Term, vkey
+from ..terms import App, Attr, Obj, Op, Star, Sub, Sym, Term, subterms, vkey
 
 BK = "earthkit.workflows.backends"
 META = {
@@ -114,7 +114,13 @@ def r2_siblings(ctx):
             okk = bool(ar) and all(isinstance(t_, App) and (
                 (t_.fname.endswith("_xp_multi_args") and t_.args and t_.args[0] == op)
                 or (isinstance(t_.fn, Attr) and t_.fn.attr == op and "array_namespace" in vkey(t_.fn.base))) for t_ in ar)  # helper inlined: xp.<op>(...)
-            if not okk:
+            nested = [t_ for t_ in ar if isinstance(t_, Term) and sum(1 for x in subterms(t_) if isinstance(x, App) and isinstance(x.fn, Attr) and x.fn.attr == op) > 1]
+            if okk and nested:
+                ctx.violation("C15.R2", a.qual, loc(a), f"array-API {op} applied once",
+                              f"ArrayAPIBackend.{op} applies '{op}' to partial results of '{op}' on some path ({vkey(nested[0])[:160]}): regrouping is only valid for "
+                              f"sum / prod / min / max — for mean, std and var the value changes, and in every case the graph no longer computes what NumPy computes on the "
+                              f"stacked inputs in one step")
+            elif not okk:
                 ctx.violation("C15.R2", a.qual, loc(a), f"array-API {op}", f"ArrayAPIBackend.{op} computes {vkey(ar)[:100]}, expected _xp_multi_args('{op}', *args)")
             else:
                 ctx.ok("C15.R2", loc(a), f"ArrayAPIBackend.{op} names reduction '{op}'")
